@@ -2,7 +2,8 @@
    protocol, calls the extracted functions (Parse.parse, Print.print,
    Print.norm, Print.plain), prints.  No logic of its own.
 
-   input   <id> P <token> <token> ...        parse a token list
+   input   <id> P <token> <token> ...        parse a token list (expression)
+           <id> PS <token> <token> ...       parse a token list (chunk, Front/Stat.v)
            <id> R <s-expression>             print / norm a tree
            <id> S <hex body> | L <hex literal> | Q <hex bytes> | N dec|hex <digits>   literal denotations (LexStr.v, Lex.v)
    output  <id> ok <ast> | <id> err <index of offending token> | <id> unsupported | <id> oof
@@ -125,6 +126,57 @@ let rec sx_of_exp (b : Buffer.t) (e : exp) : unit =
 
 let show_exp e = let b = Buffer.create 256 in sx_of_exp b e; Buffer.contents b
 
+(* ---- statements (Front/Stat.v), printed in the harness's dump format *)
+let nm k = let i = int_of_n k in if i = 1000001 then "const" else if i = 1000002 then "close" else string_of_int i
+
+let rec sx_of_block ?(fbody = false) (b : Buffer.t) (bl : block) : unit =
+  Buffer.add_string b "(block"; sx_of_items fbody b bl; Buffer.add_string b ")"
+and sx_of_items fbody b bl =
+  match bl with
+  | BNil None -> if fbody then Buffer.add_string b " (return)"   (* ast.NewFunction gives every body a return *)
+  | BNil (Some es) -> Buffer.add_string b " (return"; List.iter (fun e -> Buffer.add_string b " "; sx_of_exp b e) es; Buffer.add_string b ")"
+  | BCons (s, rest) -> Buffer.add_string b " "; sx_of_stat b s; sx_of_items fbody b rest
+and sx_of_func b (self : bool) (ps : n list) (dots : bool) (body : block) =
+  let names = (if self then ["self"] else []) @ List.map nm ps @ (if dots then ["..."] else []) in
+  Buffer.add_string b ("(function (" ^ String.concat " " names ^ ") "); sx_of_block ~fbody:true b body; Buffer.add_string b ")"
+and sx_of_stat (b : Buffer.t) (s : stat) : unit =
+  let p = Buffer.add_string b in
+  match s with
+  | SEmpty -> p "(empty)" | SBreak -> p "(break)"
+  | SGoto k -> p ("(goto " ^ nm k ^ ")") | SLabel k -> p ("(label " ^ nm k ^ ")")
+  | SDo bl -> p "(do "; sx_of_block b bl; p ")"
+  | SWhile (c, bl) -> p "(while "; sx_of_exp b c; p " "; sx_of_block b bl; p ")"
+  | SRepeat (bl, c) -> p "(repeat "; sx_of_block b bl; p " "; sx_of_exp b c; p ")"
+  | SIf (c, bl, rest) ->
+    p "(if "; sx_of_exp b c; p " "; sx_of_block b bl;
+    let rec go r = match r with
+      | IEnd -> ()
+      | IElse bl -> p " (else "; sx_of_block b bl; p ")"
+      | IElseIf (c, bl, r') -> p " (elseif "; sx_of_exp b c; p " "; sx_of_block b bl; p ")"; go r' in
+    go rest; p ")"
+  | SForNum (v, e1, e2, e3, bl) ->
+    p ("(for " ^ nm v ^ " "); sx_of_exp b e1; p " "; sx_of_exp b e2; p " ";
+    (match e3 with Some e -> sx_of_exp b e | None -> p "(num 1)"); p " "; sx_of_block b bl; p ")"
+  | SForIn (vs, es, bl) ->
+    p ("(forin (" ^ String.concat " " (List.map nm vs) ^ ") (");
+    List.iteri (fun i e -> if i > 0 then p " "; sx_of_exp b e) es; p ") "; sx_of_block b bl; p ")"
+  | SLocal (vs, es) ->
+    p ("(local (" ^ String.concat " " (List.map (fun (k, a) -> nm k ^ ":" ^ (match a with ANone -> "0" | AConst -> "1" | AClose -> "2")) vs) ^ ")");
+    List.iter (fun e -> p " "; sx_of_exp b e) es; p ")"
+  | SAssign (vs, es) ->
+    p "(assign ("; List.iteri (fun i e -> if i > 0 then p " "; sx_of_exp b e) vs; p ")";
+    List.iter (fun e -> p " "; sx_of_exp b e) es; p ")"
+  | SCall e -> p "(callstat "; sx_of_exp b e; p ")"
+  | SFunction (path, m, ps, dots, bl) ->
+    (* ast.NewFunctionStat: an assignment to the indexed name; a method gets a 'self' parameter *)
+    let target = match path with
+      | [] -> "?"
+      | k0 :: rest -> List.fold_left (fun acc k -> "(idx " ^ acc ^ " (str " ^ nm k ^ "))") ("(name " ^ nm k0 ^ ")") rest in
+    let target = match m with Some k -> "(idx " ^ target ^ " (str " ^ nm k ^ "))" | None -> target in
+    p ("(assign (" ^ target ^ ") "); sx_of_func b (m <> None) ps dots bl; p ")"
+  | SLocalFunction (k, ps, dots, bl) ->
+    p ("(localfunc " ^ nm k ^ " "); sx_of_func b false ps dots bl; p ")"
+
 let show_res (n : int) (r : exp res) : string =
   match r with
   | Ok e -> "ok " ^ show_exp e
@@ -155,6 +207,14 @@ let () =
     | id :: "P" :: toks ->
       let ts = List.map tok_of_string toks in
       print_endline (id ^ " " ^ show_res (List.length ts) (parse ts))
+    | id :: "PS" :: toks ->
+      let ts = List.map tok_of_string toks in
+      let n = List.length ts in
+      print_endline (id ^ " " ^ (match parse_chunk ts with
+        | Ok bl -> let b = Buffer.create 256 in sx_of_block b bl; "ok " ^ Buffer.contents b
+        | Err rest -> "err " ^ string_of_int (n - List.length rest)
+        | Unsupported -> "unsupported"
+        | OutOfFuel -> "oof"))
     | id :: "R" :: _ ->
       let i = String.index_from line (String.length id + 1) ' ' in
       let e = exp_of_sx (parse_sx (String.sub line (i + 1) (String.length line - i - 1))) in
